@@ -190,8 +190,8 @@ func NewRect64Invalid(isValid bool) Rect64 {
 	return Rect64{
 		left:   math.MaxInt64,
 		top:    math.MaxInt64,
-		right:  math.MaxInt64,
-		bottom: math.MaxInt64,
+		right:  math.MinInt64,
+		bottom: math.MinInt64,
 	}
 }
 
@@ -249,8 +249,8 @@ func NewRectDInvalid(isValid bool) RectD {
 	return RectD{
 		left:   math.MaxFloat64,
 		top:    math.MaxFloat64,
-		right:  math.MaxFloat64,
-		bottom: math.MaxFloat64,
+		right:  -math.MaxFloat64,
+		bottom: -math.MaxFloat64,
 	}
 }
 
